@@ -142,8 +142,9 @@ def op_crash_hook(j):
     return install
 
 
-def classify_between(run, base, sig):
-    """Listed recovery mechanisms, decided from the trace."""
+def classify_between(run, base, sig, inside=False):
+    """Listed recovery mechanisms, decided from the trace.  inside: the crash happened within the handler of its step (that step's own
+    deliveries are then not 'completed before the crash')."""
     w = run.world
     crash_step = w.crashes[0]["step"] if w.crashes else None
     ops = w.broker.oplog
@@ -156,7 +157,7 @@ def classify_between(run, base, sig):
     redelivered = {r["message_id"] for r in after if r["op"] == "deliver" and r.get("redelivered") and (r["queue"] or "").startswith(EVENTQ)}
     requested_after = {C_base(r["props"]["correlation_id"]) for r in after if r["op"] == "basic_publish" and r["props"].get("reply_to") and (r["conn"] or "").startswith("engine:")}
     # which redelivered events are Task-state events?
-    task_events = set()
+    task_events, branch_events = set(), set()
     for r in ops:
         if r["op"] == "basic_publish" and r.get("exchange") == "" and (r.get("routing_key") or "").startswith(EVENTQ):
             try:
@@ -166,15 +167,18 @@ def classify_between(run, base, sig):
                 continue
             mid = r["props"].get("message_id")
             task_events.add(mid)
+            if "Branch" in ev["context"]["State"]:
+                branch_events.add(mid)
     for mid in redelivered:
         if mid in delivered_before and mid not in acked_before:
             if mid not in requested_before and mid not in requested_after:
                 # delivered, its deferred delegate had not run yet (no request sent); after the restart the event is flagged
                 # redelivered, so the engine only waits for a reply to a request that was never made
                 return "redelivered-before-request-sent"
-            if mid in requested_before and mid in replied_before:
-                # the reply was consumed before the crash but the event was still held unacknowledged (branch event held until the
-                # join): redelivered, the engine waits for a reply that will not come again
+            if mid in requested_before and mid in replied_before and mid in branch_events:
+                # the reply was consumed before the crash but the event was still held unacknowledged BY DESIGN (the terminal event of a
+                # branch is held until the join): redelivered, the engine waits for a reply that will not come again.  An event outside
+                # any branch is never held after its reply was handled, so losing its reply is not this finding.
                 return "held-event-redelivered-after-its-reply-was-consumed"
     stuck = [k for k, v in sig.items() if v[0] == "NONE" or v[2] == "States.Timeout"]
     if stuck and any(r["op"] == "deliver" and (r["queue"] or "").startswith(REPLYQ) for r in after):
@@ -193,7 +197,7 @@ def C_base(cid):
 
 
 def run(ctx):
-    n_scn = ctx.pick(13, 150)
+    n_scn = ctx.pick(16, 150)
     stores = ["json", "redis"]
     i = 0
     for si, (name, asl, child) in enumerate(corpus(ctx.rng("corpus"), n_scn)):
@@ -277,12 +281,15 @@ def inside(ctx, scn, name, store, j, base_sig):
         lost = [x for x in started if sig.get(x, ["NONE"])[0] == "NONE"]
         if lost:
             # which mechanism?  the crash fell between the acknowledgements of the termination protocol and the terminal publish
-            mech = classify_between(run, base_sig, sig)
-            if mech is None and op and op["op"] == "basic_ack":
+            mech = classify_between(run, base_sig, sig, inside=True)
+            if mech is None and op and op["op"] == "basic_ack" and str(op.get("queue") or "").startswith(EVENTQ):
+                # (the listed finding is about held *event* messages; losing a reply acknowledged before its consequence is something else)
                 mech = "termination-acks-held-events-before-consequence"
             ctx.violation("execution-silently-lost-by-crash-inside-handler", wit(dict(lost=lost)), mech)
-        elif any(sig.get(x) != base_sig[x] for x in started) and ctx.counters is not None:
-            ctx.count("inside_handler_outcome_changed_not_judged")
+        elif any(sig.get(x) != base_sig[x] for x in started):
+            ctx.count("inside_handler_outcome_changed")
+            ctx.violation("outcome-differs-from-crash-free-run-after-crash-inside-handler", wit(dict(changed=[x for x in started if sig.get(x) != base_sig[x]])),
+                          classify_between(run, base_sig, sig, inside=True))
         for arn in getattr(run, "never_terminated", []) or []:
             if arn.rsplit(":", 1)[1] not in lost:
                 ctx.violation("execution-never-terminates-after-crash", wit(dict(arn=arn)), None)
